@@ -15,7 +15,8 @@ CONSTANTS
   ActorOf <- MCActorOf
 INIT Init
 NEXT Next
-VIEW View
+VIEW noopView
+CONSTRAINT NoopBound1
 ACTION_CONSTRAINT Edge
 INVARIANTS TypeOK RefinesA NoDuplicatePair Converge MergeLaws Hybrid DupNoop StaleNoop FreshDot
 CHECK_DEADLOCK FALSE
